@@ -1,6 +1,7 @@
 // Line-protocol driver around the real library: one operation per input line, one canonical
 // output line per operation. usage: harness_main [opsfile]   (stdin when absent)
 #include <atomic>
+#include <ext/stdio_filebuf.h>
 #include <fstream>
 #include <iostream>
 #include <random>
@@ -24,13 +25,12 @@ int main(int argc, char **argv) {
     in = &f;
   }
   std::ios::sync_with_stdio(false);
-  // The library logs some rejections with printf (DRACO_LOGE): a log line must never shift the line protocol.
-  // The protocol goes to a private copy of stdout; whatever else is written to fd 1 ends up on stderr.
-  fflush(stdout);
-  const int proto_fd = dup(1);
+  // The library logs some rejections with printf (DRACO_LOGE, e.g. "KdTreeAttributesDecoder: compression level 8 not
+  // supported."): keep the line protocol on a private copy of stdout and send everything else written to fd 1 to stderr,
+  // so that the log lines cannot shift the outputs (as robust_main does).
+  auto *proto_buf = new __gnu_cxx::stdio_filebuf<char>(dup(1), std::ios::out);   // lives until exit (cout is flushed then)
   dup2(2, 1);
-  FILE *proto = fdopen(proto_fd, "w");
-  if (!proto) return 2;
+  std::cout.rdbuf(proto_buf);
   std::string line;
   // C19: VH_THREADS=N runs the operations concurrently on N threads (thread t executes the
   // lines i with i % N == t, start-aligned, with random yields); output is printed in input order.
@@ -68,11 +68,7 @@ int main(int argc, char **argv) {
     }
     go.store(true);
     for (auto &t : th) t.join();
-    for (auto &o : outs) {
-      fputs(o.c_str(), proto);
-      fputc('\n', proto);
-    }
-    fflush(proto);
+    for (auto &o : outs) std::cout << o << "\n";
     return 0;
   }
   long n = 0;
@@ -83,12 +79,12 @@ int main(int argc, char **argv) {
     std::string t;
     while (ss >> t) a.push_back(t);
     if (a.empty()) {
-      fputs("\n", proto);
+      std::cout << "\n";
       continue;
     }
     auto it = vh::registry().find(a[0]);
     if (it == vh::registry().end()) {
-      fputs("bad-op\n", proto);
+      std::cout << "bad-op\n";
       continue;
     }
     // progress marker for crash attribution (stderr, unbuffered)
@@ -97,11 +93,9 @@ int main(int argc, char **argv) {
     // killed by SIGALRM and attributed to its line by the caller; VH_LINE_TIMEOUT seconds, 0 = off
     static const unsigned line_timeout = getenv("VH_LINE_TIMEOUT") ? atoi(getenv("VH_LINE_TIMEOUT")) : 300;
     if (line_timeout) alarm(line_timeout);
-    const std::string out = it->second(a);
+    std::cout << it->second(a) << "\n";
     if (line_timeout) alarm(0);
-    fputs(out.c_str(), proto);
-    fputc('\n', proto);
-    fflush(proto);
+    std::cout.flush();
   }
   return 0;
 }
